@@ -127,6 +127,7 @@ class Machine(object):
                 self.fails.append((key, "FileSystemStore.add(<%s form of %s>) raised %s; stored so far %d versions" % (
                     form, S.describe(grp), core.fmt_exc(exc), len(self.fs_keys))))
                 rest = grp
+            unknown = rest is grp   # after an unexpected exception we do not know how far the call got
             for o in rest:   # the call was abandoned half way: bring the directory in step with the model, one object at a time
                 if M.key_of(o) in self.fs_keys:
                     continue
@@ -135,8 +136,11 @@ class Machine(object):
                     self.fs_keys.add(M.key_of(o))
                 elif core.lib_frame(exc2) is None:
                     raise exc2
-                elif exc is None or type(exc2) is not type(exc):
-                    self.fails.append(("crash:FileSystemStore.add:%s" % type(exc2).__name__, "add(%s) raised %s" % (S.describe([o]), core.fmt_exc(exc2))))
+                elif unknown and isinstance(exc2, DataSourceError):
+                    self.fs_keys.add(M.key_of(o))   # was written by the abandoned call
+                else:
+                    key = "filesystem:refused-new-version" if isinstance(exc2, DataSourceError) else "crash:FileSystemStore.add:%s" % type(exc2).__name__
+                    self.fails.append((key, "FileSystemStore.add(%s) raised %s although that (id, version) is not stored" % (S.describe([o]), core.fmt_exc(exc2))))
 
     # ---- observing ------------------------------------------------------------------------------
     def _call(self, who, fn, *a):
@@ -306,6 +310,7 @@ class Machine(object):
 def check_case(case):
     fails = []
     with S.lib_session(), S.scratch_dir() as tmp:
+        S.require_accepted(case["pool"])
         Machine(case, tmp, fails).run()
     # one entry per key is enough for the classifier; keep the first (smallest step)
     seen, out = set(), []
@@ -420,7 +425,7 @@ def run(ctx):
         ctx.note(case, nt, cl)
         ctx.handle(case, fails)
 
-    core.run_given(ctx, history(), body, ctx.n(1100, 9000), label="c11-histories")
+    core.run_given(ctx, history(), body, ctx.n(1100, 8000), label="c11-histories")
     ctx.notes["generator-health"] = _health(ctx)
 
 
